@@ -40,22 +40,31 @@ def getStr (o : Obj) (k : Bytes) : Bytes :=
   | some (.str s) => s
   | _ => []
 
-/-- names the event structs (`eventFields`, `eventFormatV1Fields`, `eventFormatV2Fields`) give a meaning to, and
-    the keys stripped on receipt -/
-def structNames : List Bytes := [b!"room_id", b!"sender", b!"type", b!"state_key", b!"content", b!"redacts", b!"depth",
-  b!"unsigned", b!"origin_server_ts", b!"event_id", b!"prev_events", b!"auth_events", b!"msc4354_sticky", b!"sticky",
-  b!"outlier", b!"destinations", b!"age_ts"]
+/-- the JSON names the event structs (`eventFields`, `eventV1`, `eventV2`) give a meaning to -/
+def eventStructNames : List Bytes := [b!"room_id", b!"sender", b!"type", b!"state_key", b!"content", b!"redacts", b!"depth",
+  b!"unsigned", b!"origin_server_ts", b!"event_id", b!"prev_events", b!"auth_events", b!"msc4354_sticky", b!"sticky"]
 
-/-- Does the event carry a case variant of a name the event structs read?  (The structs are filled
-    by encoding/json, which matches keys case-insensitively: what such an event "is" is the library's
-    lenient parsing, outside the property's words.)  In the event formats with hashed IDs a variant of
-    `event_id` is not counted: C03 demands that it has no influence (the ID is the reference hash), so
-    such events stay inside the specification.  Variants of names that only the REDACTION keep struct
-    lists (`hashes`, `signatures`, `origin`, `prev_state`, `membership`) are not counted either: redaction
-    compares keys exactly, such a member is an unlisted key like any other. -/
-def hasFoldVariant (format : Nat) (o : Obj) : Bool :=
-  o.any (fun kv => structNames.any (fun n =>
-    foldBytes n == foldBytes kv.1 && n != kv.1 && !(format != 1 && n == b!"event_id")))
+/-- Does the event carry a member whose name is a case variant (Unicode simple case folding: `Type`, `SENDER`,
+    `ſtate_key`, `stic\u212Ay`, …) of a name the event structs read, without being that name?  Such a member is not
+    the field: an accessor that reported its value would report something that is not the member of `JSON()`. -/
+def hasStructVariant (o : Obj) : Bool :=
+  o.any (fun kv => eventStructNames.any (fun n => foldBytes n == foldBytes kv.1 && n != kv.1))
+
+/-- **Texts that must be refused on receipt**, from the properties' words (independently of the constructors):
+    * C04 "returned … with every field intact", C03 "identity is a function of the redacted content", C06 "signed by
+      every required server": an event text in which some object — at any depth — has two members with the same name
+      does not denote ONE value (readers that take the first and readers that take the last occurrence see different
+      events: another `hashes`, `unsigned`, `content`, `join_authorised_via_users_server`, …), so it cannot be returned
+      "intact";
+    * C04 / C17 / C18 "observable through any accessor": an accessor must report the exact member of `JSON()`; a
+      top-level member that is only a case variant of an event field (`Type`, `Room_id`, `ſender`, …) must not be read
+      as that field — honest servers never send such members, so the event is refused.
+    `none` = the text is not refused for these reasons. -/
+def mustRefuse (j : JVal) : Option String :=
+  if !j.noDupKeys then some "duplicate member name in some object"
+  else match j with
+    | .obj o => if hasStructVariant o then some "case variant of an event-struct member name" else none
+    | _ => none
 
 def refIDs (format : Nat) (v : Option JVal) : Option (List Bytes) :=
   match v with
@@ -92,7 +101,7 @@ def untrustedExpect (H : Bytes → Bytes) (ver : Bytes) (t : Bytes) : Except Str
   | some row, some p =>
     match p.toJVal with
     | .obj o0 =>
-      if hasFoldVariant row.eventFormat o0 then .error "case variant of a protected key" else
+      if (mustRefuse (.obj o0)).isSome then .error "must be refused (see mustRefuse)" else
       let o := o0.filter (fun kv => !(strippedKeys row.eventFormat).contains kv.1)
       let ok := hashOk H o
       let final : Except String Obj :=
